@@ -25,7 +25,7 @@ use crate::zf;
 use qvlib::wire;
 use qvlib::{hex, json, panic_key, unhex, Ctx, Local, Value};
 
-pub const RULE: &str = "all octet strings <= n over 16 syntax octets; all token sequences <= d over a 32-token zone-file menu (space-joined and glued; bare and after a context prefix); every truncation / 1-octet deletion / insertion / replacement of pretty-printed valid files; size-limit inputs; all single-nibble mutations of generic RDATA of every supported type. Oracle: no panic, termination (watchdog, <= len+2 items), nothing after the first Err, every yielded record has a valid absolute owner, type not in {NULL,OPT,TSIG}, RDATA valid per an independent per-type validator";
+pub const RULE: &str = "all octet strings <= n over 16 syntax octets; all token sequences <= d over a 32-token zone-file menu (space-joined and glued; bare and after a context prefix); every truncation / 1-octet deletion / insertion / replacement of pretty-printed valid files; size-limit inputs; 56 kB valid files of lookahead-heavy lines delivered in short reads (burst around the buffer size then 1-3 octet pieces, alternating, uniform); all single-nibble mutations of generic RDATA of every supported type. Oracle: no panic, termination (watchdog, <= len+2 items), nothing after the first Err, every yielded record has a valid absolute owner, type not in {NULL,OPT,TSIG}, RDATA valid per an independent per-type validator";
 
 const ALPHABET: &[u8] = b"a0.@ \t\n\r();\"\\#$\xff";
 const MUT_ALPHABET: &[u8] = b"a0.@ \t\n\r();\"\\#$\xff14fT";
@@ -206,6 +206,84 @@ fn limit_inputs() -> Vec<(String, Vec<u8>)> {
     v
 }
 
+/// Large valid files for the trickle family: well over three times the
+/// parser's initial buffer, so that the buffer is recycled several times, and
+/// made of lines whose tokens need a lookahead of two or more octets (decimal
+/// escapes, CRLF, `\#`, directives, quoted strings, parentheses).
+fn trickle_inputs() -> Vec<(String, Vec<u8>)> {
+    let lines: [(&str, &[u8]); 6] = [
+        ("escape-owner", b"a\\065b.t. 60 IN A 192.0.2.1\n"),
+        ("escape-string-crlf", b"x.t. 60 IN TXT \"a\\065\\\"b\" \\100x\r\n"),
+        ("generic", b"x.t. 60 IN TYPE65280 \\# 2 abcd\n"),
+        ("directives", b"$TTL 60\n$ORIGIN t.\nx IN A 192.0.2.1\n@ IN MX 1 x\n"),
+        ("parens-crlf-comment", b"x.t. 60 IN TXT ( \"a\"\r\n \"b\" ) ; c\r\n"),
+        ("include", b"$INCLUDE \"f\\065\" o.t.\r\n"),
+    ];
+    let mut v = Vec::new();
+    for (name, line) in lines {
+        for pad in 0..4usize {
+            let mut input = vec![b';'; pad];
+            if pad > 0 {
+                input.push(b'\n');
+            }
+            while input.len() < 56_000 {
+                input.extend_from_slice(line);
+            }
+            v.push((format!("{name}+{pad}"), input));
+        }
+    }
+    // all line kinds interleaved
+    let mut mixed = Vec::new();
+    while mixed.len() < 56_000 {
+        for (_, line) in lines {
+            mixed.extend_from_slice(line);
+        }
+    }
+    v.push(("mixed".into(), mixed));
+    v
+}
+
+/// Read schedules for the trickle family: a first burst (around the initial
+/// buffer size, or none) followed by tiny pieces, alternating bursts, and
+/// uniform pieces.
+fn trickle_schedules(len: usize) -> Vec<(String, Vec<usize>)> {
+    let mut v: Vec<(String, Vec<usize>)> = Vec::new();
+    for first in [0usize, 1, 8192, 16383, 16384, 16385, 20000, 32768] {
+        for tiny in [1usize, 2, 3] {
+            let mut p = Vec::new();
+            if first > 0 {
+                p.push(first);
+            }
+            p.extend(std::iter::repeat(tiny).take(len / tiny + 1));
+            v.push((format!("burst-{first}-then-{tiny}s"), p));
+        }
+    }
+    for (a, b) in [(16384usize, 1usize), (16383, 2), (4096, 1), (100, 1)] {
+        let mut p = Vec::new();
+        while p.iter().sum::<usize>() < len {
+            p.push(a);
+            p.push(b);
+        }
+        v.push((format!("alternating-{a}-{b}"), p));
+    }
+    for c in [5usize, 7, 4096, 16384] {
+        v.push((format!("uniform-{c}"), vec![c; len / c + 1]));
+    }
+    v
+}
+
+fn trickle_one(l: &mut Local, name: &str, input: &[u8], sname: &str, pieces: &[usize]) -> bool {
+    l.tick();
+    let got = zf::parse_pieces(input, pieces);
+    let (cls, viol) = check_total(input, &got);
+    l.outcome(&format!("trickle {}: {cls}", name.split('+').next().unwrap_or(name)), || json!({"family": "trickle", "name": name, "schedule": sname, "len": input.len()}));
+    let bad = !viol.is_empty();
+    for (k, d) in viol {
+        crate::report(l, &format!("trickle:{k}"), || json!({"family": "trickle", "name": name, "schedule": sname, "why": d}));
+    }
+    bad
+}
+
 pub fn run(ctx: &'static Ctx) -> ! {
     let watch = Watch::start(ctx, "exploration", RULE);
     if let Some(case) = ctx.replay_case() {
@@ -324,6 +402,16 @@ pub fn run(ctx: &'static Ctx) -> ! {
         }
     });
 
+    // ---- large files delivered in short reads
+    let tr = trickle_inputs();
+    let n_sched = trickle_schedules(tr[0].1.len()).len();
+    ctx.set_extra("trickle", json!({"inputs": tr.len(), "schedules_per_input": n_sched, "input_octets": tr[0].1.len()}));
+    ctx.par_for_each(&tr, |l, (name, input)| {
+        for (sname, pieces) in trickle_schedules(input.len()) {
+            trickle_one(l, name, input, &sname, &pieces);
+        }
+    });
+
     // ---- generic RDATA
     generic::run_family(ctx, watch, generic::Mode::Soundness);
 
@@ -335,6 +423,18 @@ pub fn run(ctx: &'static Ctx) -> ! {
 fn replay(ctx: &'static Ctx, case: Value) {
     if case["family"] == "generic" {
         generic::replay(ctx, &case, generic::Mode::Soundness);
+        return;
+    }
+    if case["family"] == "trickle" {
+        let name = case["name"].as_str().unwrap_or("");
+        let sname = case["schedule"].as_str().unwrap_or("");
+        let mut l = ctx.local();
+        for (n, input) in trickle_inputs().into_iter().filter(|(n, _)| n == name) {
+            for (sn, pieces) in trickle_schedules(input.len()).into_iter().filter(|(sn, _)| sn == sname) {
+                let bad = trickle_one(&mut l, &n, &input, &sn, &pieces);
+                eprintln!("replay: trickle {n} / {sn}: {}", if bad { "VIOLATION" } else { "conforms" });
+            }
+        }
         return;
     }
     let input: Vec<u8> = if case["family"] == "limit" {
